@@ -41,3 +41,36 @@ let () =
       else if cls = "nil" && closed = "1" then Viol "Dial returned a nil error with a conn it has closed"
       else Pass true
     | _ -> Diff "malformed line")
+
+let () =
+  (* WXL: an extension deciding from the header's Length: what it saw is the frame that left, RSV2 iff odd length *)
+  register "WXL" (fun i o -> match o with
+    | [frames; _nseen] ->
+      if frames = "-" then Pass false else begin
+        let bad = List.exists (fun t -> match String.split_on_char ':' t with
+          | [seen; rsv; len] ->
+            let len = int_of_string len and rsv = int_of_string rsv in
+            int_of_string seen <> len || (rsv land 2 <> 0) <> (len mod 2 = 1) || rsv land 5 <> 0
+          | _ -> true) (String.split_on_char ',' frames) in
+        if bad then Viol "an extension deciding from the header it is shown did not see the frame that left (Length differs), or its reserved bit was lost / set on the wrong frame"
+        else Pass true
+      end
+    | _ -> Diff "malformed line");
+  (* FRF: decompression reader reused after a message read with io.ReadFull of its known length *)
+  register "FRF" (fun i o -> match o with
+    | [reused; fresh; freshok] ->
+      if freshok <> "1" then Diff "a fresh decompression reader does not recover the second message"
+      else if reused = "shortfirst" then Diff "the first message was not read completely"
+      else if reused <> fresh then Viol "decompression reader reused through Reset after a message read with io.ReadFull of its length differs from a fresh one"
+      else Pass true
+    | _ -> Diff "malformed line");
+  (* RDT: a one-shot transport error in the middle of the stream: reported, or nothing is lost *)
+  register "RDT" (fun i o -> match i, o with
+    | [_; _; k; api], [sawerr; msgs; cls] ->
+      if cls <> "ok" then Viol ("reading over a transport that reports an error once: " ^ cls)
+      (* the error arrives WITH data and the transport goes on delivering, so no byte is missing: a read that completes a
+         fixed-size hop may legitimately drop the error (io.ReadFull does). What must not happen is silent loss: either the
+         error is reported, or every message of the stream is delivered *)
+      else if sawerr <> "1" && msgs <> "2" then Viol (Printf.sprintf "the transport reported an error once after %s bytes and went on delivering: %s neither reported it nor delivered both messages (%s delivered)" k api msgs)
+      else Pass true
+    | _ -> Diff "malformed line")
